@@ -722,6 +722,14 @@ def expectedMarkers (cfg : Config) (rs : List Rec) : List ExpSample :=
       | _ => go st' rest
   go [] rs
 
+/-- the marker an other-event record stands for: (pid, tid, converted time) -/
+def oevOf (ref : Nat) : Rec → List (Nat × Nat × Nat)
+  | .otherEvent pid tid t _ _ _ => [(pid, tid, t - ref)]
+  | _ => []
+
+/-- the other-event samples of a history, in record order: (pid, tid, converted time) -/
+def oevs (ref : Nat) (rs : List Rec) : List (Nat × Nat × Nat) := rs.flatMap (oevOf ref)
+
 /-- does the history contain a sample of another event? -/
 def hasOev (rs : List Rec) : Bool :=
   rs.any (fun r => match r with | .otherEvent .. => true | _ => false)
